@@ -369,6 +369,12 @@ func (b *Base) RunConfig(spec ConfigSpec) ConfigObs {
 		if id := baseID(o); id != 0 {
 			return fmt.Sprintf("id:%d", id)
 		}
+		// not an object of this configuration: the same kind of object from ANOTHER configuration?
+		if _, ok := keyOf(o); ok && !(o.Type() == object.STRING || o.Type() == object.INT || o.Type() == object.FLOAT) {
+			if bid, ok := b.SigID[sigOf(o)]; ok && !b.H.Nodes[bid-1].Fresh {
+				return fmt.Sprintf("sig:%d", bid)
+			}
+		}
 		return "other:" + string(o.Type())
 	}
 
